@@ -200,7 +200,7 @@ _TB = {"quick": {"NK": 6, "K": "(0, 1, 2, 3, 4, 5, 6, 7, 8)", "NS": 2}, "thoroug
 
 
 @condition(timeout={"quick": 60, "thorough": 600}, bounds=_TB, functions=["apply_path / apply_jsonpath with path '$'"],
-           note="'$' selects the whole input (the very object); leaves unbounded")
+           note="'$' selects the whole input; leaves unbounded")
 def read_root(top: int, i1: int, i3: int, s1: int, v: int, s: str, direct: bool) -> bool:
     """
     requires: 0 <= top <= 5 and s1 in @K@ and len(s) <= @NS@ and 0 <= i1 and 0 <= i3
@@ -210,11 +210,11 @@ def read_root(top: int, i1: int, i3: int, s1: int, v: int, s: str, direct: bool)
     k1 = pick(NAMES, i1); k3 = pick(NAMES, i3)
     d = _top(top, k1, k3, s1, v, s); d0 = _top(top, k1, k3, s1, v, s)
     got = sp.apply_jsonpath(d, "$") if direct else sp.apply_path(d, CTX, "$")
-    return got is d and d == d0
+    return got == d0 and d == d0
 
 
 @condition(timeout={"quick": 60, "thorough": 600}, bounds=_TB, functions=["apply_path / apply_jsonpath with a null path"],
-           note="a null path selects {} (a new empty object) whatever the document; leaves unbounded")
+           note="a null path selects {} whatever the document; leaves unbounded")
 def read_null_path(top: int, i1: int, i3: int, s1: int, v: int, s: str, direct: bool) -> bool:
     """
     requires: 0 <= top <= 5 and s1 in @K@ and len(s) <= @NS@ and 0 <= i1 and 0 <= i3
@@ -224,7 +224,7 @@ def read_null_path(top: int, i1: int, i3: int, s1: int, v: int, s: str, direct: 
     k1 = pick(NAMES, i1); k3 = pick(NAMES, i3)
     d = _top(top, k1, k3, s1, v, s); d0 = _top(top, k1, k3, s1, v, s)
     got = sp.apply_jsonpath(d, None) if direct else sp.apply_path(d, CTX, None)
-    return type(got) is dict and len(got) == 0 and got is not d and d == d0
+    return type(got) is dict and len(got) == 0 and d == d0
 
 
 @condition(timeout={"quick": 60, "thorough": 300}, bounds={"quick": {"NS": 2}, "thorough": {"NS": 4}},
@@ -282,8 +282,6 @@ def read_context(pi: int, eid: str, sname: str, v: int) -> bool:
     d = {"Execution": {"Id": v, "Name": v}, "State": v}          # the input has the same member names: must not be read
     d0 = {"Execution": {"Id": v, "Name": v}, "State": v}
     got = sp.apply_path(d, ctx, path)
-    if pi == 0 and got is not ctx:
-        return False
     return got == ref.get(ctx0, toks) and ctx == ctx0 and d == d0
 
 
@@ -316,17 +314,19 @@ def read_context_miss(pi: int, has_task: bool, ti: int) -> bool:
 
 @condition(timeout={"quick": 30, "thorough": 60},
            functions=["apply_jsonpath / apply_path when the document is JSON null"],
-           note="a null document: '$' must select null and a member path must fail")
+           note="a null document: '$' must select null, a member path must fail, a null path selects {}")
 def read_null_document(pi: int, direct: bool) -> bool:
     """
-    requires: 0 <= pi < 3
+    requires: 0 <= pi < 4
     ensures: _
     """
-    path = pick(["$", "$.a", "$[0]"], pi)
+    path = pick(["$", "$.a", "$[0]", None], pi)
     try:
         got = sp.apply_jsonpath(None, path) if direct else sp.apply_path(None, CTX, path)
     except PathMatchFailure:
-        return pi != 0
+        return pi in (1, 2)
+    if pi == 3:
+        return type(got) is dict and len(got) == 0
     return pi == 0 and got is None
 
 
@@ -399,7 +399,7 @@ def _wbounds(form):
         q.update(K="(0, 1, 4, 5, 6, 7)", RK="(0,)", NK3=2)
         t.update(K="(0, 1, 3, 4, 5, 6, 7, 9, 10)", RK="(0, 1)", NK3=6)
     else:
-        q.update(K="(0, 1, 3, 4, 5, 6, 7)", RK="(0, 1, 2)", NK3=6)
+        q.update(K="(0, 1, 3, 4, 5, 6, 7)", RK="(0, 1)", NK3=6)
         t.update(A="'ab_0'", K=_ALLK, RK="(0, 1, 2)", NK3=12)
     if form in ("idxdot", "dot3"):
         t.update(A="'ab'", K="(0, 1, 4, 5, 6, 7, 9, 10)" if form == "idxdot" else "(0, 1, 4, 5, 6, 10, 11)")
@@ -460,13 +460,13 @@ def write_root_null(mode: int, i3: int, s1: int, s2: int, rk: int, v: int, s: st
     else: r = fresh(rk, rv, s); r0 = fresh(rk, rv, s)
     if mode == 0:                                    # '$' means replace
         out = sp.apply_resultpath(d, r, "$")
-        return out is r and out == r0 and d == d0 and ref.finite_tree(out)
+        return ref.finite_tree(out) and out == r0 and d == d0
     if mode == 1:                                    # null means discard
         out = sp.apply_resultpath(d, r, None)
-        return out is d and out == d0 and ref.finite_tree(out)
+        return ref.finite_tree(out) and out == d0
     if mode == 2:                                    # default is '$'
         out = sp.apply_resultpath(d, r)
-        return out is r and out == r0 and d == d0
+        return ref.finite_tree(out) and out == r0 and d == d0
     try:                                             # may not write into the context object
         sp.apply_resultpath(d, r, "$$.a" if mode == 3 else "$$")
     except ResultPathMatchFailure:
@@ -475,13 +475,15 @@ def write_root_null(mode: int, i3: int, s1: int, s2: int, rk: int, v: int, s: st
 
 
 @condition(timeout={"quick": 30, "thorough": 60}, functions=["apply_resultpath when the input document is JSON null"],
-           note="a null input: a null ResultPath must give the input (null) back")
-def write_null_document(rv: int) -> bool:
+           note="a null input: a null ResultPath must give the input (null) back, '$' gives the result")
+def write_null_document(mode: int, rv: int) -> bool:
     """
-    requires: True
+    requires: 0 <= mode <= 1
     ensures: _
     """
-    return sp.apply_resultpath(None, rv, None) is None
+    if mode == 0:
+        return sp.apply_resultpath(None, rv, None) is None
+    return sp.apply_resultpath(None, rv, "$") == rv
 
 
 @condition(timeout={"quick": 90, "thorough": 900},
